@@ -410,9 +410,9 @@ def section_search(ctx, backend: str = 'dict') -> None:
     _install_recorder()
     rng = ctx.rng
     if backend == 'dict':
-        n_boxes, nq1, nq2 = ctx.scale(32, 600), 36, 12
+        n_boxes, nq1, nq2 = ctx.scale(32, 400), 36, 12
     else:       # maildir: content is loaded on request only (SearchKey.requirement)
-        n_boxes, nq1, nq2 = ctx.scale(8, 100), 24, 8
+        n_boxes, nq1, nq2 = ctx.scale(8, 60), 24, 8
     sfx = '' if backend == 'dict' else '_maildir'
     stats = {'queries': 0, 'depth': {}, 'kinds': {}, 'free': 0, 'hits': 0, 'uid_vs_seq': 0,
              'laws': {}, 'hidden_view_queries': 0, 'views': 0, 'messages': 0,
